@@ -99,6 +99,39 @@ func streamVars(info *types.Info, fd *ast.FuncDecl, isStream func(types.Type) bo
 		}
 		return true
 	})
+	// other names of the stream: a comma-ok assertion (bw, ok := w.(buffer.Writer)), a plain alias, a bufio wrapper
+	for changed := true; changed; {
+		changed = false
+		ast.Inspect(fd.Body, func(n ast.Node) bool {
+			as, ok := n.(*ast.AssignStmt)
+			if !ok || len(as.Rhs) != 1 || len(as.Lhs) == 0 {
+				return true
+			}
+			var src ast.Expr
+			switch r := unparen(as.Rhs[0]).(type) {
+			case *ast.TypeAssertExpr:
+				if r.Type != nil {
+					src = r.X
+				}
+			case *ast.Ident:
+				if len(as.Lhs) == 1 {
+					src = r
+				}
+			case *ast.CallExpr:
+				if f := calleeFunc(info, r); f != nil && f.Pkg() != nil && f.Pkg().Path() == "bufio" && len(r.Args) >= 1 {
+					src = r.Args[0]
+				}
+			}
+			if src == nil || !vars[identObj(info, src)] {
+				return true
+			}
+			if o := identObj(info, as.Lhs[0]); o != nil && !vars[o] && isStream(o.Type()) {
+				vars[o] = true
+				changed = true
+			}
+			return true
+		})
+	}
 	return vars
 }
 
@@ -635,13 +668,28 @@ func scanErrProp(c *core.Ctx) []ob {
 		}
 		info := cf.pk.TypesInfo
 		n++
+		// in-memory builders never fail: strings.Builder and bytes.Buffer document that their Write* methods always
+		// return a nil error
+		neverFails := func(call *ast.CallExpr) bool {
+			f := calleeFunc(info, call)
+			if f == nil {
+				return false
+			}
+			if sig, ok := f.Type().(*types.Signature); ok && sig.Recv() != nil {
+				if nm := namedOf(sig.Recv().Type()); nm != nil && nm.Obj().Pkg() != nil {
+					full := nm.Obj().Pkg().Path() + "." + nm.Obj().Name()
+					return full == "strings.Builder" || full == "bytes.Buffer"
+				}
+			}
+			return false
+		}
 		interesting := func(call *ast.CallExpr, res int, lhs types.Object) bool {
 			t := resultType(info, call, res)
-			return t != nil && isErrorType(t)
+			return t != nil && isErrorType(t) && !neverFails(call)
 		}
 		flagBlank := func(call *ast.CallExpr, res int) bool {
 			t := resultType(info, call, res)
-			if t == nil || !isErrorType(t) {
+			if t == nil || !isErrorType(t) || neverFails(call) {
 				return false
 			}
 			// only stream/codec calls: skip fmt.Print-like helpers
